@@ -369,6 +369,24 @@ PROPS['C03'] = {
                     'handle*Message are not under contract'],
 }
 
+PROPS['C04'] = {
+    'sidecars': ['contracts/C04_transport.py'],
+    'level': 'other',
+    'explanation': 'PARTIAL - sequential glue of YowNoiseLayer only.  The statement quantifies over interleavings of the handshake thread with the '
+                   'network thread, all chunkings, and the Noise handshake inside consonance: not decidable by sequential contracts.  Discharged on '
+                   'the real code, for all inputs: on_auth sends exactly the prologue (edge header + routing info as one segment when configured, then '
+                   'WA 04 00) with segmenting switched off/on at exactly the right events and on afterwards, presents the passive flag of the event in '
+                   'the client configuration, starts one handshake worker only when no handshake is in progress with the stored server key, and '
+                   'without a client key pair sends nothing and requests a disconnect; on_handshake_finished reports a failure upward as one <failure> '
+                   'stanza plus one event and is silent on success; _on_protocol_state_changed stores a changed server key (one write, the new key) '
+                   'BEFORE buffered frames are flushed and does not rewrite an unchanged key; receive queues every segment exactly once before any '
+                   'flush and flushes only outside the handshake; send hands every stanza to the cipher exactly once; _handle_stream_event moves one '
+                   'segment per event; on_disconnected resets the cipher.  The flush loop under its lock is C12, frame segmentation C05.',
+    'assumptions': ['consonance (WANoiseProtocol, handshake, BlockingQueueSegmentedStream) and queue.Queue (FIFO) are outside the proofs',
+                    'thread interleavings are not modelled (C11, section 8)', 'ClientConfig / UserAgentConfig are opaque constructors: only the '
+                    'passive argument is tied to the event'],
+}
+
 NOT_APPLICABLE = {
     'C11': 'quantifies over thread interleavings (2-4 sender threads through lock/queue operations); no verifier available here '
            'has a thread or permission model and sequential contracts cannot express "for every schedule" (DESIGN.md section 8)',
